@@ -100,6 +100,26 @@ LineAttrsOfStream(chunks) ==
                     chunks[j].a.m /\ Len(chunks[j].x) > 0 /\ lineOf(j) = ln}
         IN IF c = {} THEN LineOnly(Unmapped) ELSE LineOnly(chunks[Min(c)].a)]
 
+
+(* final-source streams carry no text: their chunk events are read as       *)
+(* segments and resolved like a map                                         *)
+ResolveEvents(chunks, line, col) ==
+  LET c == {j \in 1..Len(chunks) : chunks[j].gl = line /\ chunks[j].gc <= col}
+  IN IF c = {} THEN Unmapped
+     ELSE LET best == Max({chunks[j].gc : j \in c})
+          IN chunks[Max({j \in c : chunks[j].gc = best})].a
+
+ByteAttrsOfEvents(chunks, text) ==
+  LET pt == PosTable(text)
+  IN [i \in 1..Len(text) |-> ResolveEvents(chunks, pt[i][1], pt[i][2])]
+
+LineAttrsOfEvents(chunks, text) ==
+  [ln \in 1..NumLines(text) |->
+     LET c == {j \in 1..Len(chunks) : chunks[j].gl = ln /\ chunks[j].a.m}
+     IN IF c = {} THEN LineOnly(Unmapped) ELSE LineOnly(chunks[Min(c)].a)]
+
+NoNames(chunks) == \A j \in 1..Len(chunks) : ~chunks[j].a.hn
+
 (* the parts of an attribution the properties compare                       *)
 Core(a) == <<a.m, a.f, a.l, a.c, a.hn, a.n>>
 Full(a) == <<a.m, a.f, a.hc, a.ct, a.l, a.c, a.hn, a.n>>
